@@ -70,7 +70,8 @@ func NewC05(tier string) *C05 {
 	c.Items = []string{"empty", "send1", "send2", "send65", "send70", "sendM70", "reqbatch", "cancel1",
 		"dep_ok", "dep_disputed", "dep_negfee", "dep_huge", "dep_huge_dec6", "dep_huge_dec24", "dep_zero", "dep_unknown_token", "dep_unknown_chain", "dep_to_hub_short_recv", "dep_negfee_hub",
 		"exec_first", "exec_first_hugefee", "exec_unknown", "valset_event", "logic_event", "prices", "prices_partial", "holders", "observe_far", "prices_extra_name_by_powerless", "holders_by_powerless",
-		"delegate_dup_ext", "delegate_dup_orch", "delegate_fresh"}
+		"delegate_dup_ext", "delegate_dup_orch", "delegate_fresh",
+		"holders_one_nil", "prices_dup_name", "prices_huge_extra", "prices_nil_value_extra", "prices_negative_extra", "prop_cold_hub", "prop_tokeninfos_empty"}
 	c.Pairs = [][2]string{{"send2", "send70"}, {"send1", "send65"}, {"dep_ok", "send70"}, {"observe_far", "send2"}, {"prices", "exec_first"}, {"reqbatch", "send70"}, {"send70", "reqbatch"}}
 	// a key registration that is rejected (address / orchestrator already in use) or accepted in the middle of a block that
 	// has written many entries, followed by one more write: whatever the registration scanned must not stay open
@@ -315,6 +316,13 @@ func (c *C05) vote(in *hub.Instance, ns *c05State, chain string, mk func(nonce u
 	}
 }
 
+// hubGuard runs f and returns the value it panicked with, if any.
+func hubGuard(f func()) (p interface{}) {
+	defer func() { p = recover() }()
+	f()
+	return nil
+}
+
 func maxU256() sdk.Int {
 	return sdk.NewIntFromBigInt(new(big.Int).Sub(new(big.Int).Lsh(big.NewInt(1), 256), big.NewInt(1)))
 }
@@ -487,6 +495,63 @@ func (c *C05) item(in *hub.Instance, ns *c05State, it string, st *engine.Step) {
 			}
 			c.txOutcome(in.DeliverMsg(&oracletypes.MsgPriceClaim{Epoch: epoch, Prices: &oracletypes.Prices{List: list}, Orchestrator: v.Acc.String()}), st)
 		}
+	case "holders_one_nil", "prices_dup_name", "prices_huge_extra", "prices_nil_value_extra", "prices_negative_extra":
+		// a quorum reports as usual; validator A's report is hostile but passes stateless validation
+		epoch := in.Oracle.GetCurrentEpoch(in.Ctx())
+		names := []string{"eth", "ethereum/gas", "bnb", "bsc/gas", "hub", "usdt"}
+		for vi, v := range c.Vals {
+			if it == "holders_one_nil" {
+				m := &oracletypes.MsgHoldersClaim{Epoch: epoch, Holders: &oracletypes.Holders{List: []*oracletypes.Holder{{Address: hub.HexAddr("x"), Value: sdk.NewInt(5)}}}, Orchestrator: v.Acc.String()}
+				if vi == 0 {
+					m.Holders = nil
+				}
+				c.txOutcome(in.DeliverMsg(m), st)
+				continue
+			}
+			var list []*oracletypes.Price
+			for i, n := range names {
+				list = append(list, &oracletypes.Price{Name: n, Value: sdk.NewDec(int64(100 + i + vi))})
+			}
+			if vi == 0 {
+				switch it {
+				case "prices_dup_name":
+					list = append(list, &oracletypes.Price{Name: "hub", Value: sdk.ZeroDec()}, &oracletypes.Price{Name: "eth", Value: sdk.NewDec(-5)})
+				case "prices_huge_extra":
+					list = append(list, &oracletypes.Price{Name: "doge", Value: sdk.NewDecFromBigIntWithPrec(new(big.Int).Lsh(big.NewInt(1), 315), 18)})
+				case "prices_nil_value_extra":
+					list = append(list, &oracletypes.Price{Name: "doge"})
+				case "prices_negative_extra":
+					list = append(list, &oracletypes.Price{Name: "doge", Value: sdk.NewDec(-1)})
+				}
+			} else if it == "prices_huge_extra" && vi == 1 {
+				list = append(list, &oracletypes.Price{Name: "doge", Value: sdk.NewDecFromBigIntWithPrec(new(big.Int).Lsh(big.NewInt(1), 315), 18)})
+			}
+			c.txOutcome(in.DeliverMsg(&oracletypes.MsgPriceClaim{Epoch: epoch, Prices: &oracletypes.Prices{List: list}, Orchestrator: v.Acc.String()}), st)
+		}
+	case "prop_cold_hub", "prop_tokeninfos_empty":
+		// governance proposals that pass their own ValidateBasic
+		var content interface {
+			ValidateBasic() error
+		}
+		var err error
+		if it == "prop_cold_hub" {
+			p := &mhubtypes.ColdStorageTransferProposal{ChainId: "hub", Amount: sdk.NewCoins(sdk.NewInt64Coin("hub", 5))}
+			content = p
+			if content.ValidateBasic() == nil {
+				if pp := hubGuard(func() { err = in.Proposal(p) }); pp != nil {
+					st.Violate("C05", "panic_in_proposal_handler", "NewMhub2ProposalHandler: "+panicClass(pp), "an admissible %T halts the chain when it is executed (x/gov's EndBlocker does not recover): %v", p, pp)
+				}
+			}
+		} else {
+			p := &mhubtypes.TokenInfosChangeProposal{}
+			content = p
+			if content.ValidateBasic() == nil {
+				if pp := hubGuard(func() { err = in.Proposal(p) }); pp != nil {
+					st.Violate("C05", "panic_in_proposal_handler", "NewMhub2ProposalHandler: "+panicClass(pp), "an admissible %T halts the chain when it is executed (x/gov's EndBlocker does not recover): %v", p, pp)
+				}
+			}
+		}
+		_ = err
 	case "holders_by_powerless":
 		epoch := in.Oracle.GetCurrentEpoch(in.Ctx())
 		for vi, v := range append(append([]hub.Validator{}, c.Vals...), c.Extra...) {
